@@ -14,7 +14,9 @@ PROP = "C02"
 HEADER = M.HEADER
 MODEL_TARGETS = M.MODEL_TARGETS
 SHARD = 40
-RULE = ("DataFrames of 1-12 rows over all nine stypes (+ numerical/categorical target or none), materialized four "
+RULE = ("(+ targets with unlabeled rows: missing target cells in the first / last / some / all rows; the frame still "
+        "has len(df) rows and y is NaN / -1 there) (+ history: after materialization the dataset's converter converts the same / relabelled / permuted / "
+        "target-less frame again and must reproduce the materialized frame) DataFrames of 1-12 rows over all nine stypes (+ numerical/categorical target or none), materialized four "
         "times: RangeIndex + original column order, relabelled index (offset / permuted / string / duplicated labels, "
         "assigned, via set_index, or as left behind by iloc / concat; the index unnamed or NAMED 'data' / 'index' / "
         "like one of the columns), permuted columns, both; distinct = distinct "
@@ -44,13 +46,32 @@ METHODS = ["assign", "assign", "set_index", "iloc", "concat"]
 
 
 # ------------------------------------------------------------------ generation
+FAMILY = ["embedding", "text_embedded", "image_embedded", "embedding", "numerical", "categorical"]
+
+
 def gen_case(rng):
     while True:
-        fr = G.gen_frame(rng, index_kinds=["range"])
+        # a fifth of the frames is drawn from the embedding family only, so that `embedding` columns whose names
+        # sort before, between and after text_/image_embedded columns are common
+        fr = G.gen_frame(rng, index_kinds=["range"], stypes=FAMILY if rng.chance(0.2) else None)
         tgt = next((c for c in fr["cols"] if c["name"] == fr["target"]), None)
         if tgt is not None and tgt["stype"] == "categorical" and fr["n"] < 2:
             continue                       # Dataset.num_classes asserts >= 2 classes
         break
+    unlabeled = None
+    if tgt is not None and rng.chance(0.4):
+        # UNLABELED rows: missing cells (NaN / None, per the column's nan_kind) in the target column -- the first row,
+        # the last row, a random subset, or (numerical target) every row.  A categorical target keeps >= 2 classes.
+        cells = tgt["cells"]
+        n0 = len(cells)
+        unlabeled = rng.pick(["first", "last", "some", "all"] if tgt["stype"] == "numerical" else ["first", "last", "some"])
+        idx = {"first": [0], "last": [n0 - 1], "all": list(range(n0)),
+               "some": [i for i in range(n0) if rng.chance(0.4)] or [rng.randrange(n0)]}[unlabeled]
+        new = [None if i in idx else v for i, v in enumerate(cells)]
+        if tgt["stype"] == "categorical" and len({str(v) for v in new if v is not None}) < 2:
+            unlabeled = None
+        else:
+            tgt["cells"] = new
     n = fr["n"]
     rows = list(range(n))
     method = rng.pick(METHODS)
@@ -78,7 +99,7 @@ def gen_case(rng):
     if iname == "col":
         iname = rng.pick(fr["col_order"])
     return {"frame": fr, "rows": rows, "label_kind": kind, "method": method, "perm": perm,
-            "split": rng.randint(0, len(rows)), "index_name": iname}
+            "split": rng.randint(0, len(rows)), "index_name": iname, "unlabeled": unlabeled}
 
 
 def exhaustive_orders(rng):
@@ -181,18 +202,43 @@ def materialize(eff, df):
 
 def run(case):
     eff = effective(case)
-    obs = {"ok": True, "variants": {}}
+    obs = {"ok": True, "variants": {}, "again": {}}
+    dfs, ds_a = {}, None
     plans = [("A", "base", case["frame"]["col_order"]), ("B", "relabel", case["frame"]["col_order"]),
              ("C", "base", case["perm"]), ("D", "relabel", case["perm"])]
     for tag, how, order in plans:
         try:
             df = G.build_df(eff, col_order=order) if how == "base" else relabelled_df(case, eff, order)
+            dfs[tag] = df
             o, ds = materialize(eff, df)
             if tag == "A":
                 o["parsed"] = {c["name"]: M.parse_timestamps(ds.df, c) for c in eff["cols"] if c["stype"] == "timestamp"}
+                ds_a = ds
             obs["variants"][tag] = dict(o, ok=True)
         except Exception as ex:
             obs["variants"][tag] = {"ok": False, "exc": C.exc_name(ex), "msg": str(ex)[:300], "tb": C.fmt_exc()}
+    # HISTORY: later conversions through the converter that materialization left behind (dataset A): the same
+    # frame again, the relabelled frame, the column-permuted frame, both, and the frame without its target column
+    if ds_a is not None:
+        again = [("same", dfs.get("A")), ("relabelled", dfs.get("B")), ("permuted", dfs.get("C")), ("both", dfs.get("D")),
+                 ("same-2", dfs.get("A"))]
+        if eff["target"] is not None and dfs.get("A") is not None:
+            again.append(("no-target", dfs["A"].drop(columns=[eff["target"]])))
+        for tag, df in again:
+            if df is None:
+                continue
+            try:
+                tf2 = ds_a.convert_to_tensor_frame(df)
+                by_name = {}
+                for names in tf2.col_names_dict.values():
+                    for name in names:
+                        try:
+                            by_name[name] = G.read_feat(tf2.get_col_feat(name))
+                        except Exception as ex:
+                            by_name[name] = {"exc": C.exc_name(ex), "msg": str(ex)[:200]}
+                obs["again"][tag] = {"ok": True, "tf": G.read_tf(tf2), "by_name": by_name}
+            except Exception as ex:
+                obs["again"][tag] = {"ok": False, "exc": C.exc_name(ex), "msg": str(ex)[:300], "tb": C.fmt_exc()}
     return obs
 
 
@@ -269,6 +315,23 @@ def oracle(case, obs):
             if o.get(attr) != A.get(attr):
                 return dict(key=f"{kind}-{attr}", what=f"{attr} differs with {what[tag]}", expected=A.get(attr),
                             observed=o.get(attr))
+    # (a') every LATER conversion through the dataset's converter equals the materialized frame, cell by cell and
+    #      name by name (without the target column: the same features and no y)
+    for tag, o in obs.get("again", {}).items():
+        how = f"a later ds.convert_to_tensor_frame(df) [{tag}]"
+        if not o["ok"]:
+            return dict(key=f"reconvert-raises:{o['exc']}", what=f"{how} raised {o['exc']}: {o['msg']}", stypes=sts,
+                        tb=o.get("tb"))
+        co = canon_tf(o["tf"], eff)
+        want = dict(ca, y=None) if tag == "no-target" else ca
+        if co != want:
+            where = next((k for k in ("num_rows", "names", "y", "feats") if co[k] != want[k]), "?")
+            return dict(key=f"reconvert:{where}", what=f"{how} differs from the materialized TensorFrame ({where})",
+                        expected=want[where], observed=co[where], stypes=sts)
+        if o["by_name"] != A["by_name"]:
+            name = next(n for n in A["by_name"] if o["by_name"].get(n) != A["by_name"][n])
+            return dict(key="reconvert:lookup-by-name", what=f"{how}: get_col_feat({name!r}) differs from the "
+                        f"materialized frame's", expected=A["by_name"][name], observed=o["by_name"].get(name))
     # (b) schema facts read off the TensorFrame
     tfj = A["tf"]
     exp = expected_schema(eff)
@@ -425,11 +488,21 @@ def stats(cases, obss):
         d["rows"][len(c["rows"])] = d["rows"].get(len(c["rows"]), 0) + 1
         tgt = next((x["stype"] for x in fr["cols"] if x["name"] == fr["target"]), "none")
         d["target"][tgt] = d["target"].get(tgt, 0) + 1
+        tcol = next((x for x in fr["cols"] if x["name"] == fr["target"]), None)
+        if tcol is not None and any(tcol["cells"][r] is None for r in c["rows"]):
+            k = f"{tgt}/{c.get('unlabeled') or 'some'}"
+            d.setdefault("unlabeled_target", {})
+            d["unlabeled_target"][k] = d["unlabeled_target"].get(k, 0) + 1
         lab = labels_of(c)
         if len(set(map(str, lab))) < len(lab):
             d["dup_labels"] += 1
         if any(x["stype"] in PARENT for x in fr["cols"]):
             d["with_children"] += 1
+        embs = [x["name"] for x in fr["cols"] if x["stype"] == "embedding" and x["name"] != fr["target"]]
+        kids = [x["name"] for x in fr["cols"] if x["stype"] in PARENT]
+        if embs and kids and max(embs) > min(kids):
+            d["embedding_sorts_after_child"] = d.get("embedding_sorts_after_child", 0) + 1
+        d["reconversions"] = d.get("reconversions", 0) + len((o or {}).get("again", {}))
         if any(not v.get("ok") for v in (o or {}).get("variants", {}).values()):
             d["raised"] += 1
         for x in fr["cols"]:
@@ -530,6 +603,13 @@ def sanity(cases, obss):
             probs.append(f"target kind {t} never drawn")
     if d["dup_labels"] == 0:
         probs.append("duplicated labels never drawn")
+    for k in ("numerical/first", "numerical/last", "numerical/all", "categorical/first", "categorical/last"):
+        if d.get("unlabeled_target", {}).get(k, 0) == 0:
+            probs.append(f"target with unlabeled rows ({k}) never drawn")
     if d["with_children"] == 0:
         probs.append("no frame with text/image-embedded columns")
+    if d.get("embedding_sorts_after_child", 0) < 3:
+        probs.append("fewer than 3 frames whose embedding column sorts after a text/image-embedded column")
+    if d.get("reconversions", 0) < 4 * d["total"]:
+        probs.append("later conversions through the fitted converter are not being exercised")
     return probs
